@@ -145,6 +145,21 @@ def run(rep, work, tier, seed, props, replay=None):
     for b, r in sorted(leaks, key=lambda x: len(x[0].stmts))[:5]:
         rep.violation({"kind": "after backward() and dropping every reference, %d tensor(s) and %d operation(s) (internal placeholder copies included) are still alive with the cyclic GC disabled"
                                % (r["leaked"]["tensors"], r["leaked"]["ops"]), "census": True, "stmts": b.stmts, "leaked": r["leaked"]})
+    # (5) every operation of the catalogue: build on intermediates / on leaves, backward() (or just drop the results), drop every reference:
+    #     no Tensor / Operation may survive with the cyclic GC disabled
+    rel_tasks, rel_res, rel_bad = [], [], 0
+    if replay is None or "catalog_index" in (replay or {}):
+        rel_tasks, rel_res = gh.catalogue_sweep("release", ([0, 1, 2] if tier == "thorough" else [0, 2]) if replay is None else [replay.get("kind", 0)], seed, "kind", replay)
+        shown = set()
+        for t, r in zip(rel_tasks, rel_res):
+            for m in r.get("msgs", []):
+                if "still alive" not in m:
+                    continue
+                rel_bad += 1
+                key = r["label"].split("(")[0].split(" ")[0]
+                if key not in shown and len(shown) < 6:
+                    shown.add(key)
+                    rep.violation({"kind": "operation sweep: %s -- %s" % (r["label"], m), "catalog_index": t["index"], "kind_": t["kind"], "seed": t["seed"]})
     for i, j, msg in oracle[:5]:
         rep.violation({"kind": msg, "stmts": kb[i].stmts[:j + 1]})
     for fc, fr in frep[:5]:
@@ -160,13 +175,14 @@ def run(rep, work, tier, seed, props, replay=None):
                        "stmts": kb[k].stmts, "impl": kr[k], "n_disagreements": len(bad)})
     if not props["ok"]:
         rep.violation({"kind": "proof obligations of Props/C07.v no longer check", "broken": "Props/C07.v", "log": props["log"][-1500:]},
-                      no_input=not (oracle or lbad or bad or frep or leaks))
+                      no_input=not (oracle or lbad or bad or frep or leaks or rel_bad))
 
     def nontrivial(b, keep):
         return any(nm not in keep for nm in b.order) and any(s["op"] == "backward" for s in b.stmts)
     nt = set(progs.canonical(b) for b, k in zip(kb, kk) if nontrivial(b, k))
     rep.coverage.update({
-        "evaluations": len(kb) + len(fcases) + len(cb),
+        "evaluations": len(kb) + len(fcases) + len(cb) + len(rel_res),
+        "operation_release_sweep": {"entries_x_kinds": len(rel_res), "survivor_messages": rel_bad},
         "placeholder_census_histories": len(cb), "placeholder_census_leaks": len(leaks), "placeholder_census_histories_with_unexpected_exceptions": census_unexpected,
         "placeholder_census_statements": gh.op_histogram(cb),
         "distinct_nontrivial": len(nt),
